@@ -59,6 +59,8 @@ impl MT200 {
         // Parse optional Field 72
         let field_72 = parser.parse_optional_field::<Field72>("72")?;
 
+        crate::parser::utils::verify_parser_complete(&parser)?;
+
         Ok(MT200 {
             field_20,
             field_32a,
